@@ -547,3 +547,14 @@ func HarnessBug(format string, a ...any) {
 	flush()
 	os.Exit(3)
 }
+
+// CheckHarnessPanic turns a recovered panic that was raised by the harness' own
+// packages (not by the code under test) into HarnessBug.
+func CheckHarnessPanic(r any) {
+	s := fmt.Sprint(r)
+	for _, p := range []string{"refcodec:", "pkggen:", "valgen:", "respgen:", "peer:", "flatch:"} {
+		if strings.HasPrefix(s, p) {
+			HarnessBug("%s", s)
+		}
+	}
+}
